@@ -262,14 +262,19 @@ public:
         if (ch == '\r') {
             ch = '\n';
 
-            int ch2 = get();
-            if (isUtf16) {
+            if (!isUtf16) {
+                // look ahead with peek(): get() + unget() followed by the caller's own ungetChar()
+                // pushed the character after the CR back twice and lost the CR
+                if (peek() == '\n')
+                    (void)get();
+            } else {
+                int ch2 = get();
                 const int c2 = get();
                 ch2 = makeUtf16Char(ch2, c2);
-            }
 
-            if (ch2 != '\n')
-                ungetChar();
+                if (ch2 != '\n')
+                    ungetChar();
+            }
         }
 
         return ch;
